@@ -142,25 +142,27 @@ pub fn check_c05_like(case: &CliCase, cx: &mut CaseCtx, check_rejects_content: b
     let mut expected_rej: Vec<(String, &FileOp, bool)> = Vec::new();
     if exp.stops_on_failure && !exp.hard_error {
         let j = ws.fail_at.unwrap();
-        let start = &ws.states[first];
+        // rejects are saved after the modified files and after emptied directories are removed: the reject
+        // of a file exists iff its directory exists in the tree the applied patches leave behind
+        let end = &ws.states[first + exp.applied];
         for op in &ws.metas[j].ops {
             if !op.failing_hunks.is_empty() {
                 let d = match op.target.rfind('/') {
                     Some(i) => &op.target[..i],
                     None => "",
                 };
-                let dir_in_start = d.is_empty() || start.files.keys().any(|p| p.starts_with(&format!("{}/", d)));
-                expected_rej.push((format!("{}.rej", op.target), op, dir_in_start));
+                let dir_at_end = d.is_empty() || end.files.keys().any(|p| p.starts_with(&format!("{}/", d)));
+                if dir_at_end {
+                    expected_rej.push((format!("{}.rej", op.target), op, true));
+                } else {
+                    cx.label("reject-bypassed-directory-does-not-exist");
+                }
             }
         }
     }
-    for (p, _, must) in &expected_rej {
+    for (p, _, _) in &expected_rej {
         if !rejects.contains_key(p) {
-            if *must {
-                return Verdict::Fail(format!("reject file {:?} is missing (rejects present: {:?})", p, rejects.keys().collect::<Vec<_>>()));
-            } else {
-                cx.skip("reject-in-directory-absent-at-start");
-            }
+            return Verdict::Fail(format!("reject file {:?} is missing although its directory exists after the applied patches (rejects present: {:?})", p, rejects.keys().collect::<Vec<_>>()));
         }
     }
     for p in rejects.keys() {
@@ -234,7 +236,7 @@ impl Prop for C05 {
     fn assumptions(&self) -> Vec<String> {
         vec![
             "shapes of open known findings and shapes whose outcome legitimately depends on save-phase timing with several threads (a directory emptied and re-populated in the same run) are not generated; counts in excluded_by_construction".into(),
-            "a reject whose directory does not exist in the start tree may be present or absent".into(),
+            "a reject is expected exactly when its directory exists in the tree left by the applied patches (it is written after the files are saved and emptied directories removed)".into(),
             "directories are not compared (emptied directories are removed by the tool by design)".into(),
         ]
     }
@@ -260,7 +262,7 @@ impl Prop for C13 {
         "failing quilt workspaces by construction (see C05): failures in any subset of the failing patch's files and hunks, reasons no-match / missing file / create over existing / delete mismatch, failing files spread over workers, threads 1..16. Oracle: the generator knows which hunks cannot apply; after the push the set of *.rej paths equals {<file>.rej for files of the failing patch with >=1 failing hunk}, each read with the harness's own unified-diff reader holds exactly the failed hunks in order with original old/new lines and start numbers, is accepted by the tool's parser and names the file; no other reject exists. non-trivial = the failing patch has file patches with different outcomes, or a file with hunks of different outcomes; distinct = distinct case".into()
     }
     fn assumptions(&self) -> Vec<String> {
-        vec!["a reject whose directory does not exist in the start tree may be present or absent (the property says 'if its directory exists')".into(), "file names needing C quoting are not generated here (covered by C12)".into()]
+        vec!["a reject is expected exactly when its directory exists in the tree left by the applied patches (the property says 'if its directory exists')".into(), "file names needing C quoting are not generated here (covered by C12)".into()]
     }
     fn budget(&self, tier: Tier) -> (u32, usize) {
         (tier.pick(1500, 20000), 900)
